@@ -112,6 +112,11 @@ def build(job):
     if route == "from_dict":
         d = dict((l, _join(tp, r)) for l, r in zip(labels, rows))
         return cls.from_dict(d)
+    if route == "from_dict+case-sensitive-ns":
+        # taxa added one by one to a case-sensitive namespace: labels that differ only in case are different taxa
+        ns = dendropy.TaxonNamespace(is_case_sensitive=True)
+        taxa = [ns.new_taxon(l) for l in labels]
+        return cls.from_dict(dict((t, _join(tp, r)) for t, r in zip(taxa, rows)), taxon_namespace=ns)
     if route == "from_dict+extra-taxon":
         m = cls.from_dict(dict((l, _join(tp, r)) for l, r in zip(labels, rows)))
         m.taxon_namespace.new_taxon("unused")
@@ -455,6 +460,12 @@ def jobs_labels(tier):
                 if schema == "nexml" and lab not in XML_SAFE_LABELS:
                     continue
                 out.append(("roundtrip@labels", mk(tp, "from_dict", target, labels, rows), True))
+        # taxa whose labels differ only in letter case: distinct taxa of the matrix.  NeXML identifies taxa by id, so they must stay
+        # apart there (the label-keyed formats look labels up case-insensitively by default: left out for them)
+        for labels in (["t1", "T1", "zz"], ["Hsa", "hsa", "HSA"]):
+            for target in TARGETS:
+                if TARGETS[target][0] == "nexml" and tp in SUPPORT["nexml"]:
+                    out.append(("roundtrip@labels", mk(tp, "from_dict+case-sensitive-ns", target, labels, rows), True))
         # strict PHYLIP: labels that fill or nearly fill the ten-column field, followed directly by the sequence
         for labels in (["abcdefghij", "abcdefghiJ2"[:10], "z"], ["a b c d e", "0123456789", "x"], ["abcdefghi", "abcdefgh", "abcdefghij"]):
             for target in ("phylip-strict", "phylip-strict-interleaved-reader"):
